@@ -258,8 +258,9 @@ func (c *Client) connect() error {
 			for {
 				val, err := stanza.NextPacket(c.transport.GetDecoder())
 				if err != nil {
+					// The failure is returned by connect(): no Disconnected event for a session that was never
+					// established (under a StreamManager it would start a second reconnection loop).
 					c.ErrorHandler(err)
-					c.disconnected(state)
 					return
 				}
 				switch val.(type) {
